@@ -36,6 +36,7 @@ def parseEv? (s : String) : Option Ev :=
   | ["sendReturn", i] => i.toNat?.map Ev.sendReturn
   | ["closeCall"] => some .closeCall
   | ["closeCallInRecv"] => some .closeCallInRecv
+  | ["closeCallInReconn"] => some .closeCallInReconn
   | ["connCallInRecv"] => some .connCallInRecv
   | ["reconnStart"] => some .reconnStart
   | ["reconnEnd"] => some .reconnEnd
